@@ -218,6 +218,11 @@ func init() {
 	c02 = append(c02, HarnessSpec{Pkg: ix, Func: "ZZ_C02_Search", Solver: "cvc5", Desc: "time variable of a sub-query",
 		Quick:  tier(map[string]int{"queryfrom": 10, "queryforms": 1, "sortings": 2, "restricts": 1, "indexfiles": 2, "limits": 1, "skips": 1}),
 		Bounds: "`@sub:id:S ftime:@sub:ftime@+D:` with symbolic S and D over 1..2 index files with different reference times: the sub-query's stream may live in the other file"})
+	for f, n := range []string{"[-]chost:<IPv4 literal>", "[-]shost:<IPv6 literal>", "[-]chost:@sub:chost@ (host of a sub-query's stream)", "[-]shost:@sub:shost@"} {
+		c02 = append(c02, HarnessSpec{Pkg: ix, Func: "ZZ_C02_Search", Solver: "cvc5", Desc: "host filter: " + n,
+			Quick:  tier(map[string]int{"queryfrom": 11 + f, "queryforms": 1, "sortings": 2, "limits": 2, "skips": 1, "restricts": 1, "indexfiles": 2, "mixed": 1}),
+			Bounds: "streams of both address families (stream 2 is an IPv6 one, in its own host group; two server addresses among the IPv4 ones) over 1..2 index files; the literal's last byte (0..5), the sub-query's stream id (0..3) symbolic, plain and inverted; 2 sortings, limits 1,2"})
+	}
 	for k, n := range []string{"id", "cbytes", "sbytes", "ftime", "ltime", "chost", "shost", "cport", "sport"} {
 		c02 = append(c02, HarnessSpec{Pkg: ix, Func: "ZZ_C02_Comparators", Solver: "cvc5", Desc: "sort comparator " + n,
 			Quick:  tier(map[string]int{"key": k, "streams": 2}),
@@ -225,7 +230,7 @@ func init() {
 	}
 	registry["C02"] = CheckSpec{Property: "C02", Harnesses: c02,
 		Assumptions: []string{"queries are given in normal form (ConditionsSet built directly; the parser side is C03)", "stream population: fixed concrete streams written by the real writer; what varies symbolically are the query constants, tag match bits and the id restriction", "oracle: filter by the harness's own reading of the query on its own stream records, rank by the sort key with ties in any order, page, more <=> matches beyond the page"},
-		Outside: []string{"grouping", "sub-queries feeding variables other than the one time-variable form", "data conditions (C04)", "more than 4 streams / 2 files", "host conditions"},
+		Outside: []string{"grouping", "sub-queries feeding variables other than the time-variable and the host-variable forms", "data conditions (C04)", "more than 4 streams / 2 files", "host filters with network masks, chost:@shost comparisons within one stream"},
 	}
 
 	mg := "internal/index/manager"
@@ -307,7 +312,7 @@ func init() {
 			{Pkg: cv, Func: "ZZ_C15_Cache", Desc: "chunk lists that may be empty, 3 operations", Quick: tier(map[string]int{"ops": 3, "chunks": 1, "chunklen": 1, "ctypes": 1, "dts": 1, "emptylist": 1}), Thorough: tier(map[string]int{"ops": 4, "chunks": 1, "chunklen": 1, "ctypes": 1, "dts": 1, "emptylist": 1, "forcecompaction": 1}),
 				Bounds: "as above with chunk lists of 0..1 chunks: an empty converter output is stored, replaces older output and survives a reopen"},
 			{Pkg: cv, Func: "ZZ_C15_Cut", Quick: tier(map[string]int{"chunks": 1, "chunklen": 2, "ctypes": 2, "dts": 2}), Bounds: "converter cache cut inside its last record (shared with C15)"},
-			{Pkg: mg, Func: "ZZ_C12_Restart", Quick: &Tier{Params: map[string]int{"realjobs": 1, "gates": 10}, Samples: 10}, Thorough: &Tier{Params: map[string]int{"realjobs": 1, "gates": 10, "payloadmax": 6, "thresholdmax": 12}, Samples: 20}, Bounds: "a service with 3 tags and 2..3 imported captures is shut down or killed at one of 9 job-level gates (settled; tagging job in flight with a later import completed; between an import's body and completion; inside the body with the index cut at 4 positions; merge body between an import's body and completion, killed / shut down later; inside a state save with the new file cut at 4 positions; while the inputs of a finished merge were being deleted; between writing the new state file and removing the old one); the real manager.New starts from the directories left behind, settles, optionally imports one more capture; payload sizes and the data tag's threshold symbolic"},
+			{Pkg: mg, Func: "ZZ_C12_Restart", Quick: &Tier{Params: map[string]int{"realjobs": 1, "gates": 10, "thirdlife": 1}, Samples: 10}, Thorough: &Tier{Params: map[string]int{"realjobs": 1, "gates": 10, "thirdlife": 1, "payloadmax": 6, "thresholdmax": 12}, Samples: 20}, Bounds: "a service with 3 tags and 2..3 imported captures is shut down or killed at one of 9 job-level gates (settled; tagging job in flight with a later import completed; between an import's body and completion; inside the body with the index cut at 4 positions; merge body between an import's body and completion, killed / shut down later; inside a state save with the new file cut at 4 positions; while the inputs of a finished merge were being deleted; between writing the new state file and removing the old one); the real manager.New starts from the directories left behind, settles, optionally imports one more capture; payload sizes and the data tag's threshold symbolic"},
 			{Pkg: mg, Func: "ZZ_C12_Restart", Desc: "endpoint and webhook across two restarts", Quick: &Tier{Params: map[string]int{"realjobs": 1, "gates": 10, "gatefrom": 9, "onlymarks": 1}, Samples: 4},
 				Bounds: "a service with a pcap-over-ip endpoint, a webhook and a mark (no tag that is re-evaluated after a restart) is killed after a capture file was stored and before its import started; restarted (the capture directory lists a file the state file does not), shut down cleanly, restarted again: tags, endpoint and webhook are shown in both lives. The same gate also runs with the three regular tags in the entries above"},
 			{Pkg: mg, Func: "ZZ_C12_Restart", Desc: "with a mark and a tag referencing it", Quick: &Tier{Params: map[string]int{"realjobs": 1, "gates": 10, "marks": 1}, Samples: 10},
